@@ -24,7 +24,11 @@ Issuers == {"idp1", "idp2", "unknown"}
 \* level "request": the same certificate selection on the other side -- an identity provider receiving a signed
 \* AuthnRequest; "idp1" / "idp2" then name two service providers in the receiver's metadata (the keys are just keys)
 Scn == [layout : Layouts, issuer : Issuers, signKey : Keys, embedded : Keys \cup {"none"},
-        flag : BOOLEAN, level : {"response", "assertion", "request"}]
+        flag : BOOLEAN, level : {"response", "assertion", "request"},
+        \* for assertion-level signatures: the Issuer of the enclosing (unsigned) Response -- the same entity, or one of the
+        \* known identity providers.  Trust follows the Issuer of the element that is signed, not the envelope it travels in.
+        outer : {"same", "idp1", "idp2"}]
+WellFormed(s) == s.outer # "same" => s.level = "assertion" /\ s.outer # s.issuer
 
 VARIABLES scn, pc, certs, verdict
 vars == <<scn, pc, certs, verdict>>
@@ -34,7 +38,7 @@ Descriptors(i) == IF i = "idp2" THEN {<<"kIdp2", "signing">>} ELSE IF i = "idp1"
 \* the signing certificates metadata holds for an entity: use="signing" or no use attribute
 Trusted(i) == {d[1] : d \in {x \in Descriptors(i) : x[2] \in {"signing", "none"}}}
 
-Init == scn \in Scn /\ pc = "select" /\ certs = {} /\ verdict = "none"
+Init == scn \in {s \in Scn : WellFormed(s)} /\ pc = "select" /\ certs = {} /\ verdict = "none"
 Done(v) == verdict' = v /\ pc' = "done" /\ UNCHANGED <<scn, certs>>
 \* certificate selection of _check_signature
 Select == /\ pc = "select"
@@ -48,7 +52,7 @@ Verify == pc = "verify" /\ Done(IF scn.signKey \in certs THEN "accept" ELSE "rej
 MayAccept == \/ scn.signKey \in Trusted(scn.issuer)
              \/ (~scn.flag /\ Trusted(scn.issuer) = {} /\ scn.signKey = scn.embedded)
 MustReject == ~MayAccept
-MustAccept == scn.signKey \in Trusted(scn.issuer)
+MustAccept == scn.signKey \in Trusted(scn.issuer) /\ scn.outer = "same"
 
 Emit == /\ pc = "done" /\ pc' = "emitted"
         /\ PrintT(<<"CASE", ToJson([scn |-> scn, model |-> verdict, mustAccept |-> MustAccept, mustReject |-> MustReject,
